@@ -181,6 +181,28 @@ func c13Gen(r *rand.Rand, tier string, i int) any {
 			in.Ops = append(in.Ops, o)
 		}
 	}
+	// the reload pattern: several peers, a UseClusterSize definition is created, the configuration is
+	// reloaded (ClearDynsamplers) and the same definition is created again with the membership unchanged
+	if r.Intn(3) == 0 {
+		var ucs []sampDef
+		for _, d := range pool {
+			if d.Type >= 5 && d.P["UseClusterSize"] != 0 {
+				ucs = append(ucs, d)
+			}
+		}
+		if len(ucs) > 0 {
+			d := ucs[r.Intn(len(ucs))]
+			if d.P["GoalThroughputPerSec"] < 2 {
+				d.P["GoalThroughputPerSec"] = 100
+			}
+			down, name := r.Intn(2) == 0, names[r.Intn(len(names))]
+			in.Ops = append(in.Ops,
+				c13Op{Op: "peers", Peers: []int{2, 3, 4, 5, 8}[r.Intn(5)], Fire: true},
+				c13Op{Op: "create", Down: down, Name: name, Def: &d},
+				c13Op{Op: "clear"},
+				c13Op{Op: "create", Down: down, Name: name, Def: &d})
+		}
+	}
 	return in
 }
 
